@@ -18,6 +18,9 @@
      (20 7)                documented valid usage, no rule applies
      (20 9 parent trait module supertrait)   a client implements the sealed trait for a type OF THE
                            CRATE with a foreign type as the trait's parameter
+     (20 10 parent trait module supertrait)  as (20 9 ..) after the client has implemented a PUBLIC trait
+                           (e.g. PartialEq<Local>) for the crate type: rejected only if, in addition,
+                           the sealing trait's impls are for a closed set of crate types
      (20 8 trait super)    a client implements `trait` for a type that does not implement `super`
                            (super as written in the trait header)
    Result: (0 (codes...)) = the set of rustc error codes the model allows; () = must compile.
@@ -121,6 +124,14 @@ Definition run_c20 (args : list sx) : sx :=
       | None => bad_case
       end
   | [SZ 7%Z] => codes []
+  | [SZ 10%Z; p; t; m; s] =>
+      match dstr p, dstr t, dstr m, dstr s with
+      | Some p, Some t, Some m, Some s =>
+          if sealed traits modules reexports p t m s && seal_covers_params traits p t m s
+             && seal_impls_closed sealed_impls p m s
+          then codes [277; 603]%Z else codes []
+      | _, _, _, _ => bad_case
+      end
   | [SZ 9%Z; p; t; m; s] =>
       match dstr p, dstr t, dstr m, dstr s with
       | Some p, Some t, Some m, Some s =>
